@@ -230,6 +230,13 @@ def collect(ctx: Ctx, nrand: int):
                                 ("time", datetime.time, civil.timetz()), ("timedelta", datetime.timedelta, datetime.timedelta(seconds=x))):
                 o, _ = vs.out_of(typelib.unmarshal, ann, x)
                 add({"ev": "parse", "K": K, "ik": ik, "out": o, "expect": project(exp)}, kind=K, what="from_" + ik, value=repr(x), zone=zone, text="")
+    # a non-negative count of seconds given as decimal digits in a text carrier is read like the number (timedelta only:
+    # for dates the same digits may be a calendar form)
+    for n in (0, 1, 7, 90, 1800, 3600, 86400, 2419200, 20200101, 1577836800):
+        for c in CARRIERS[:4]:
+            o, _ = vs.out_of(typelib.unmarshal, datetime.timedelta, carry(c, str(n)))
+            add({"ev": "parse", "K": "timedelta", "ik": "int", "out": o, "expect": project(datetime.timedelta(seconds=n))},
+                kind="timedelta", what="digits:" + c, value=str(n), zone="UTC", text=str(n))
     os.environ["TZ"] = "UTC"
     time.tzset()
     return events, meta
